@@ -13,7 +13,9 @@ RULE = ("MC: exhaustive TLC runs of the Adnl byte-level state machine (real SHA-
         "adnl.message.query / adnl.message.answer ids at lengths 4, 11, 12, 13, 16, 20, 64, 1000, each followed by a marker packet; Adnl.Absorbs says which "
         "valid packets the connection keeps (a 12-byte pong; free for the authentication nonce), every other one must reach Responses() once, in order "
         "(C11:packet-swallowed:<content class>; Absorb events judged by Adnl_Trace). "
-        "Dial deadline: a script dialled under context.WithTimeout(300 ms) whose whole data traffic happens after the deadline (Adnl.TimePasses: "
+        "One server identity: two complete earlier connections, the scripted one and the client's own reconnect after a drop, all in one "
+        "process; every handshake is verified by the reference server and judged by Adnl_Trace (a function of server key, ephemeral key and "
+        "parameters only). Dial deadline: a script dialled under context.WithTimeout(300 ms) whose whole data traffic happens after the deadline (Adnl.TimePasses: "
         "not a fault, everything must still be delivered). Resend: the same liteclient.Packet value handed to Send again on the same connection and "
         "after a first send on another connection (Adnl.Resend), the server must decode exactly the payload and the value must be unchanged after Send. "
         "Every packet object handed out by Responses()/ParsePacket is kept (not copied) and re-read after each later packet and at the end; "
@@ -22,7 +24,7 @@ RULE = ("MC: exhaustive TLC runs of the Adnl byte-level state machine (real SHA-
         "bytes as they arrived, API-level sends/deliveries) and Adnl_Trace decrypts and verifies it with Prim. "
         "distinct = scripts replayed (two modes each) + recorded connections accepted.")
 
-NCLS = 50
+NCLS = 51
 # divergences that are hard evidence by themselves: an object handed out by the API holds bytes other than the sent
 # payload while TLC verifies on the recorded stream that the server sent the right ones; no socket or timer is involved
 # in what was observed, and whether the recycled buffer is hit again depends on the Go scheduler - so no re-run is demanded
@@ -114,6 +116,9 @@ def check_generated(ck, vecs):
         snd = [s for s in v["steps"] if s["k"] == "Send" and s["d"] == "c2s"] if v else []
         if [s["again"] for s in snd] != [0, 1, 0, 1, 0, 5] or not snd[2]["elsewhere"] or v["steps"][-1]["nd"][0] != 6:
             raise Infra("generator: the resend script is not as intended")
+    for v in classes.get("none-s2c-reuse-none", []) or [None]:
+        if not v or v["steps"][0].get("prior") != 2 or v["steps"][-1].get("reconnect") is not True:
+            raise Infra("generator: no script with several connections to one server identity")
     shrink = [v for v in classes.get("none-s2c-shrink-none", []) if v["steps"][-1]["nd"][1] == 5]
     if not shrink:
         raise Infra("generator: no fault-free script with non-growing server->client payloads was delivered completely")
@@ -241,6 +246,10 @@ def run(ck):
             {"kind": "vector", "mode": r["mode"], "vector": v})
     ck.traces_ok += nmatch
     ck.evaluations += 2 * len(vecs)
+    same = [r["info"]["handshakes_same_server"] for rs, _ in rep for r in rs if r.get("info", {}).get("handshakes_same_server")]
+    ck.extra["handshakes_with_one_server_identity"] = same[:8]
+    if not suspects and (not same or min(same) < 4):
+        raise Infra("no script completed two earlier connections, the scripted one and a reconnect with one server identity")
     stopped = [r["info"] for rs, _ in rep for r in rs if r.get("info", {}).get("receiver_stopped")]
     ck.extra["client_receiver_stopped"] = len(stopped)
     ck.extra["of_which_Status_still_Connected"] = sum(1 for x in stopped if x["status_connected"])
@@ -345,6 +354,9 @@ def run(ck):
         for a, b in zip(starts, starts[1:]):
             segs.setdefault(evs[a].get("cls"), evs[a:b])
         dl, rs = segs.get("none-s2c-deadline-none"), segs.get("none-c2s-resend-none")
+        rc_ = [evs[a:b] for a, b in zip(starts, starts[1:]) if evs[a].get("cls") in ("again", "reconnect")]
+        if len(rc_) < 3 or any(x[-1]["k"] != "Quiesce" or "gave_up" in x[-1] for x in rc_):
+            raise Infra("no complete recordings of later connections to one server identity")
         if not dl or not rs or dl[-1]["k"] != "Quiesce" or rs[-1]["k"] != "Quiesce" or "gave_up" in dl[-1] or "gave_up" in rs[-1]:
             raise Infra("no complete deadline / resend recording to build canaries from")
         cans = []
@@ -361,6 +373,11 @@ def run(ck):
         it = [i for i, e in enumerate(rs) if e["k"] == "Recheck" and e.get("side") == "tx"]
         s = copy.deepcopy(rs); s[it[-1]]["sha"] = ("0" if s[it[-1]]["sha"][0] != "0" else "1") + s[it[-1]]["sha"][1:]
         cans.append(("a packet value looks different after Send", s, it[-1] + 1))
+        # every handshake with a server identity is judged, not only the first: spoil the last one (the reconnect's)
+        last = rc_[-1]
+        ih = [i for i, e in enumerate(last) if e["k"] == "Seg" and e["d"] == "c2s"][0]
+        s = copy.deepcopy(last); b_ = bytearray.fromhex(s[ih]["hex"]); b_[100 + ck.seed % 100] ^= 0x04; s[ih]["hex"] = b_.hex()
+        cans.append(("the handshake of a LATER connection to the same server identity is not the specification's", s, ih + 1))
         cp = os.path.join(ck.work, "canary_trace2.ndjson")
         vlib.write_ndjson(cp, [e for _, s, _ in cans for e in s] + [{"k": "End"}])
         st, trn, ok, evn = ck.states, ck.transitions, ck.traces_ok, ck.evaluations
